@@ -393,7 +393,7 @@ def run(prog, rep, tier):
     else:
         c = cs[0]
         handled = any(t in ("*", "ValueError", "Exception", "BaseException") for _, ts in getattr(c, "in_try", []) for t in ts)
-        rep.check("GATE.anm", not handled and not c.path, fwhere(f3, c.node),
+        (rep.decide if handled else rep.check)("GATE.anm", not handled and not c.path, fwhere(f3, c.node),
                   "topological_ordering(A) is called unconditionally and its ValueError propagates",
                   "the ValueError of topological_ordering(A) is swallowed or the call is conditional")
         stores = S3.select("attrstore", qname=f3.qname)
